@@ -186,7 +186,7 @@ def run(tier):
                     canon["accepted_reencodes_identically"] += 1
                 else:
                     g.add("Proof::from_bytes accepts a 1008-byte string that re-encodes differently",
-                          {"site": "Proof", "class": "non-canonical-accepted", "toks": case_key(s)}, ex)
+                          {"site": "Proof", "class": "non-canonical-accepted", "classes": sorted(set(t[1] for t in muts(s)))}, ex)
             elif not r.get("reenc_prefix"):
                 g.add("accepted proof does not re-encode to its first 1008 bytes",
                       {"site": "Proof", "class": "non-canonical-accepted"}, ex)
@@ -194,7 +194,7 @@ def run(tier):
             canon["rejected"] += 1
         if s["pred"] is not None and obs != s["pred"]:
             g.add("Proof decoder outcome %s differs from the model's %s" % (r["res"], s["pred"]),
-                  {"site": "Proof", "class": "pred-%s-obs-%s" % (s["pred"], obs), "toks": case_key(s)}, ex)
+                  {"site": "Proof", "class": "pred-%s-obs-%s" % (s["pred"], obs), "classes": sorted(set(t[1] for t in muts(s)))}, ex)
         if s["pred"] is not None and len(muts(s)) == 1 and len(ck.samples) < 5 and muts(s)[0][1] in ("identity", "infx", "negated"):
             ck.sample({"proof_field": muts(s)[0], "predicted": s["pred"], "observed": r["res"], "reencodes": r.get("reenc")})
     if n_p != len(allp):
